@@ -161,7 +161,7 @@ CALIB = {k: (min(10 * max(v, 100), K_CAP), RHO) for k, v in MEASURED.items()}
 CALIB_DEFAULT = (K_CAP, RHO)
 K_STABILITY = 300
 RHO_SLOW = 0.1          # progress required by 4K to qualify for the extension
-SLOW_FACTOR = 1         # extension for slowly but visibly converging runs
+SLOW_FACTOR = 8         # extension for slowly but visibly converging runs
 
 
 # --------------------------------------------------------------------------
@@ -1196,7 +1196,7 @@ def _iterate(U, P, x, K, target, solver, checkpoint=None):
     the error at iteration ``checkpoint[0]`` still exceeds
     ``checkpoint[1]``: no substantial progress)."""
     st_ = {'k': 0, 'err': None, 'x': None, 'diverged': False,
-           'stalled': False}
+           'stalled': False, 'qmax': 0.0}
     err0 = P.err(x)
     blow = 1e8 * max(err0, P.scale)
 
@@ -1211,11 +1211,16 @@ def _iterate(U, P, x, K, target, solver, checkpoint=None):
         if e <= target:
             st_['x'] = toflat(v, P.X)
             raise _Stop()
-        if checkpoint is not None and st_['k'] == checkpoint[0] and \
-                e > checkpoint[1]:
-            st_['x'] = toflat(v, P.X)
-            st_['stalled'] = True
-            raise _Stop()
+        if checkpoint is not None and st_['k'] <= checkpoint[0]:
+            # the error has to stay below the bound during the whole last
+            # quarter before the checkpoint: an iteration that merely
+            # oscillates through the bound is not "visibly converging"
+            if 4 * st_['k'] > 3 * checkpoint[0]:
+                st_['qmax'] = max(st_['qmax'], e)
+            if st_['k'] == checkpoint[0] and st_['qmax'] > checkpoint[1]:
+                st_['x'] = toflat(v, P.X)
+                st_['stalled'] = True
+                raise _Stop()
 
     try:
         U.run(x, K, cb)
@@ -1277,6 +1282,13 @@ def _nonsmooth(desc, strata):
                                                  or len(P.terms) > 0))
 
     # ---- progress + KKT
+    if solver == 'fb' and family == 'eqcon' and not desc.get('probe_known'):
+        # region of the known finding C12-K1 (forward_backward_pd loses its
+        # over-relaxation and stalls on equality-constrained problems):
+        # excluded by construction and counted (DESIGN section 4); the
+        # finding's own replay carries "probe_known" and is executed once
+        # per run.  Remove this block when C12-K1 is fixed.
+        return Outcome('excluded', strata=strata + ['excluded:C12-K1'])
     x0 = P.x0
     err0 = wnorm(x0 - P.xstar, P.dX)
     if err0 == 0:
@@ -1299,7 +1311,7 @@ def _nonsmooth(desc, strata):
     # One run, stopped at the first iterate within the target: the same
     # verdict as "run K, on a miss re-run with 4K" (the iteration does not
     # depend on niter) at a lower cost.  A run that has made substantial
-    # progress by 4K (error below RHO_SLOW * start) but is in one of the
+    # progress by 4K (error below RHO_SLOW * start from 3K to 4K) but is in one of the
     # slow (sublinear) tails of the primal-dual methods gets SLOW_FACTOR
     # times the budget before the miss counts; a run still above RHO_SLOW at
     # 4K is a miss.
